@@ -12,11 +12,13 @@ from pv.runner import Res
 
 ID = "C19"
 HYPOTHESIS_DIRECT = False
+CONFIGS = {"default": {}, "debug-logging": {"PV_LOGGING": "debug"}}
 RULE = ("plans of 0-150 steps (and, 1 in 19, of 151-1200 / 5000 steps: texts beyond the usual buffer sizes) over names with letters, digits, '-' and '_', rendered as Metric-FF logs (real FF header "
         "lines, varied indentation / step-number width, trailers: blank lines, 'plan cost: ..', 'time spent: ..', "
         "word-only lines; LF and CRLF) and as ENHSP plans (one '(name args)' per line, mixed case); logs without a plan "
         "carrying one of the three no-solution markers or none; the text sits in a fresh file or (40 %) in a file name at "
-        "which another plan was parsed just before.  Non-trivial = >= 11 steps (two number widths) or a "
+        "which another plan was parsed just before; every case under two configurations (logging disabled / every logger "
+        "enabled at DEBUG).  Non-trivial = >= 11 steps (two number widths) or a "
         "trailer line made only of word characters directly after the plan.  Distinct by log text.")
 ASSUMPTIONS = ["noise lines never contain a digit immediately followed by ': ' (such a line is syntactically a plan step)",
                "action and argument names start with a letter"]
